@@ -34,7 +34,7 @@ CHECKS = [
     dict(pid="C01", level="model_checking",
          text="Signature::generate, SignatureTable::{from_signature,has_weak_match,find_match} and the whole scan loop of CopiaSync::delta with Delta::push_* are executed symbolically from the compiler's MIR on a basis and a source of symbolic bytes (one instance per concrete (basis length, source length, block size) triple); SMT shows for every content: the result is Ok, the header fields are those of the source, op lengths sum to the source size, every copy is block-aligned inside the basis, adjacent ops are merged, and interpreting the ops against the basis yields the source. Weak-hash collisions are covered (the digest is an arbitrary function of the window). The same is decided for the AsyncCopiaSync::delta state machine, the two engines are shown to produce identical deltas op for op, and on further instances the whole chain generate -> delta -> patch (both engines, patch from MIR too) is shown to succeed with output == source in one query. Engine/path independence of signatures: AsyncCopiaSync::signature (coroutine MIR, reader delivering the input in arbitrary pieces) equals Signature::generate on small inputs, and the parallel (> 64 KiB, rayon) branch of Signature::generate equals the sequential definition on inputs of 65537-200000 symbolic bytes.",
          ref="DESIGN.md §4 C01",
-         note="Bounded: quick up to 6/6 bytes, block sizes 1-4; thorough up to 10/10, block sizes 1-5. Leaves replaced by contracts: rolling checksums (contract decided by C17), BLAKE3 as an ideal collision-free hash. std models (Vec, HashMap as math map, iterator adaptors, in-memory reader) are trusted and validated each run in concrete mode against the native build. NOT covered: AsyncCopiaSync unless the evidence lists it, sync_files, the CLI chain through bincode files, > 64 KiB inputs / the rayon path, I/O errors.",
+         note="Bounded: quick up to 6/6 bytes, block sizes 1-4; thorough up to 10/10, block sizes 1-5. Leaves replaced by contracts: rolling checksums (contract decided by C17), BLAKE3 as an ideal collision-free hash. std models (Vec, HashMap as math map, iterator adaptors, in-memory reader) are trusted and validated each run in concrete mode against the native build. AsyncCopiaSync::signature is compared with Signature::generate over a reader whose reads may be short (bounded instances). NOT covered: sync_files, the CLI chain through bincode files, > 64 KiB inputs / the rayon path, I/O errors.",
          technique="SMT over MIR (symbolic execution of the real pipeline with state merging; bounded unrolling with unwinding assertions; contract summaries); native replay"),
     dict(pid="C16", level="model_checking",
          text="Two solver-decided links. (1) At full width (windows up to 65536 bytes, all byte values) the signature-side and scan-side rolling checksums both equal the definition, re-asked from C17 under this id. (2) On the MIR-executed pipeline (same instances as C01) the delta's literal byte count is <= that of a textbook greedy scan encoded from the property text on the same symbolic basis/source, and an identical file costs fewer literal bytes than one block.",
@@ -42,7 +42,7 @@ CHECKS = [
          note="The product `greedy control structure x 64 KiB blocks` is composed by argument, not decided by one query. Same bounds, contracts and trusted base as C01 and C17.",
          technique="SMT over MIR (bounded pipeline vs reference greedy scan) + full-width inductive checksum obligations"),
     dict(pid="C19", level="model_checking",
-         text="glob_match's real loop (from MIR, unrolled with an unwinding assertion) is shown equal to the recursive wildcard definition for every pattern/text up to the length bound over {a,b,*,?,.,/}; needs_transfer is decided at full 64-bit width; build_plan (from MIR, with BTreeMap/Vec/sort modelled over an ordered path universe and is_excluded as an arbitrary predicate) is shown equal to the set definition of transfer/skipped/delete for every presence/metadata/flag assignment. The solver covers all inputs inside the bound at once, which unit tests sample.",
+         text="glob_match's real loop (from MIR, unrolled with an unwinding assertion) is shown equal to the recursive wildcard definition for every pattern/text up to the length bound over {a,b,*,?,.,/}; needs_transfer is decided at full 64-bit width (SMT over MIR, and again by Kani/CBMC on the compiled function); build_plan (from MIR, with BTreeMap/Vec/sort modelled over an ordered path universe and is_excluded as an arbitrary predicate) is shown equal to the set definition of transfer/skipped/delete for every presence/metadata/flag assignment. The solver covers all inputs inside the bound at once, which unit tests sample.",
          ref="DESIGN.md §4 C19",
          note="Bounded: quick |p|<=4,|t|<=5 and 3 paths; thorough |p|<=6,|t|<=7 and 5 paths. is_excluded (pattern trimming, per-component vs whole-path dispatch, loops over patterns and components) is executed from MIR and shown equal to its definition for 1-2 patterns (length <= 3-4) and relative paths (length <= 4-5) of '/'-separated plain names — Path::components is modelled only on that domain (no '.'/'..' components, no leading '/'). In build_plan its result is an arbitrary predicate. NOT covered: parse_remote_meta_output (text parsing is out of reach). Trusted: MIR dump, encoder and its std models (BTreeMap iteration in key order, Vec::push, sort = sorted permutation), validated each run against the native build.",
          technique="SMT over MIR (bounded loop unrolling with unwinding assertions; std collection models); counterexamples replayed natively"),
@@ -62,7 +62,7 @@ CHECKS = [
          note="Trusted: Kani/CBMC, the check-time copy mechanism. Tree-level reconcile() is decided by E1 (SMT over MIR: BTreeMap keys/chain/collect/sort_unstable/dedup modelled over an ordered universe of 2 (quick) / 3 (thorough) paths, full 32-byte fingerprints): output = exactly the non-Noop per-path table decisions over the union of both sides' paths, base ignored when untrusted. That part is bounded (model checking), the per-path part is proof-level. The Lean model is not used.",
          technique="Kani/CBMC bounded model checking (SAT) of the real function over its full input domain"),
     dict(pid="C20", level="proof", engine="kani",
-         text="Header level (Kani/CBMC, full domain): FrameHeader::{decode,encode,validate,new} and MessageType::from_u8 over all 2^96 header buffers and all valid header values: decode accepts exactly COPA/version 1/type 1..7/length <= 16 MiB, returns the little-endian length, re-encodes to the same bytes, and encode/decode is the identity. Framing level (SMT over MIR): Codec::read_message on ANY wire input (length up to 2^40) never panics, never makes an allocation request above 16 MiB, rejects every malformed header and every short input, and on success has handed exactly the announced payload slice to Message::decode; Codec::write_message writes COPA | LE length | type code | 1 | flags followed by exactly the encoded payload iff the message is encodable and <= 16 MiB, and nothing otherwise.",
+         text="Header level (Kani/CBMC, full domain): FrameHeader::{decode,encode,validate,new} and MessageType::from_u8 over all 2^96 header buffers and all valid header values: decode accepts exactly COPA/version 1/type 1..7/length <= 16 MiB, returns the little-endian length, re-encodes to the same bytes, and encode/decode is the identity. Framing level (SMT over MIR): Codec::read_message on ANY wire input (length up to 2^40) never panics, never makes an allocation request above 16 MiB, rejects every malformed header and every short input, on success has handed exactly the announced payload slice to Message::decode, and rejects a complete well-formed frame only if Message::decode rejects its payload however the reader splits the bytes (Read::read modelled by its contract: short reads allowed); Codec::write_message writes COPA | LE length | type code | 1 | flags followed by exactly the encoded payload iff the message is encodable and <= 16 MiB, and nothing otherwise.",
          ref="DESIGN.md §4 C20",
          note="bincode itself is NOT modelled: Message::encode/decode are contracts (arbitrary payload / arbitrary result on the given slice), so the round trip of field values through bincode and Message::decode's own behaviour on arbitrary bytes are not covered; bincode::deserialize_from is modelled by its hazard (it reserves length prefixes read from the untrusted stream). The CLI file readers (tokio) are not covered. Kani: std::fmt::format stubbed to String::new().",
          technique="Kani/CBMC (SAT) over the full 96-bit header space + SMT over MIR for the codec framing and allocation bound; native replay with an allocation-tracking oracle"),
